@@ -2716,6 +2716,9 @@ class PerspConvex(Convex):
                  multiplier=1):
 
         super().__init__(affine_in, affine_out, xtype, sign, multiplier)
+        if isinstance(affine_scale, (Vars, VarSub, Affine)):
+            if affine_scale.model is not affine_in.model:
+                raise ValueError('Models mismatch.')
         self.affine_scale = affine_scale
 
     def __repr__(self):
@@ -4171,6 +4174,8 @@ class DecAffine(Affine):
                 raise ValueError('The expression of x must be a scalar')
 
         if isinstance(x, (DecVar, DecVarSub, DecAffine)):
+            if self.model is not x.model:
+                raise ValueError('Models mismatch.')
             event_adapt = comb_set(event_adapt, x.event_adapt)
 
         if isinstance(z, (DecVar, DecVarSub)):
@@ -4181,6 +4186,8 @@ class DecAffine(Affine):
                 raise ValueError('The expression of z must be a scalar')
 
         if isinstance(z, (DecVar, DecVarSub, DecAffine)):
+            if self.model is not z.model:
+                raise ValueError('Models mismatch.')
             event_adapt = comb_set(event_adapt, z.event_adapt)
 
         return DecExpConstr(ExpConstr(self.model, x, self, z), event_adapt)
@@ -4946,6 +4953,10 @@ class DecLinConstr(LinConstr):
         return '{}{}{} constraint{}{}'.format(size, event, expr, suffix, ctype)
 
     def forall(self, ambset):
+
+        if not isinstance(ambset, (LinConstr, Bounds, CvxConstr, Iterable)):
+            if self.model.top is not ambset.model:
+                raise ValueError('Models mismatch.')
 
         self.ambset = ambset
 
